@@ -204,6 +204,7 @@ def run_worker(ctx, cases, worker="kworker.py", scratch=None, env=None, timeout=
             f.write(json.dumps(c) + "\n")
     open(rp, "w").close()
     results = [None] * len(cases)
+    stderr_by_case = {}
     start = 0
     e = dict(os.environ)
     if env:
@@ -224,17 +225,32 @@ def run_worker(ctx, cases, worker="kworker.py", scratch=None, env=None, timeout=
                 else:
                     results[o["i"]] = o
         done = max([i for i, x in enumerate(results) if x is not None], default=-1)
+        # per-case stderr (sanitizer reports in recover mode): segments between "@@CASE i" markers
+        segs = (r.stderr or "").split("\n@@CASE ")
+        for seg in segs[1:]:
+            head, _, body = seg.partition("\n")
+            try:
+                ci = int(head.strip())
+            except ValueError:
+                continue
+            body = body.strip()
+            if body and ci < len(results):
+                stderr_by_case[ci] = body if len(body) < 2400 else body[:1200] + "\n...\n" + body[-1100:]
         if r.returncode != 0:
             crashes += 1
             k = begun if begun > done else done + 1
             if k < len(cases) and results[k] is None:
                 results[k] = {"i": k, "crash": r.returncode, "stderr": (r.stderr or "")[-1500:]}
             start = k + 1
-            if crashes > 200:
+            if crashes > 600:
                 break
         else:
             start = len(cases)
     for i, x in enumerate(results):
         if x is None:
             results[i] = {"i": i, "crash": -999, "stderr": "not executed"}
+        elif i in stderr_by_case and "stderr" not in x:
+            x["stderr_seg"] = stderr_by_case[i]
+        elif i in stderr_by_case and "crash" in x:
+            x["stderr"] = stderr_by_case[i]
     return results
